@@ -43,10 +43,11 @@ def sh(cmd, cwd=None, timeout=1800):
     p = subprocess.run(cmd, shell=True, cwd=cwd, env=ENV, capture_output=True, text=True, timeout=timeout)
     return p.returncode, p.stdout + p.stderr
 
-def demo(pkgdir, d, race):
-    if not os.path.exists(f"{d}/demo_test.go"): return 99
+def demo(pkgdir, d, race, src=None):
+    src = src or f"{d}/demo_test.go"
+    if not os.path.exists(src): return 99
     dst = f"{REPO}/{pkgdir}/zz_seeded_demo_test.go"
-    shutil.copy(f"{d}/demo_test.go", dst)
+    shutil.copy(src, dst)
     rc, out = sh(f"go test {'-race ' if race else ''}-vet=off -count=1 -timeout 300s -run 'Demo|Seeded|C[0-9][0-9]' .", cwd=f"{REPO}/{pkgdir}", timeout=600)
     os.remove(dst)
     return rc
@@ -68,7 +69,12 @@ def main():
             generic = f"/tmp/rebased/{os.path.basename(out_dir)}/patch.diff"
             for cand in (f"{d}/patch.diff", REBASED.get(key), generic, f"{out_dir}/patch.diff"):
                 if cand and os.path.exists(cand) and sh(f"git apply --check {cand}", cwd=REPO)[0] == 0:
-                    patch = cand; break
+                    # a patch can still apply (by context) after a later fix and no longer compile
+                    sh(f"git apply {cand}", cwd=REPO)
+                    builds = sh("go build ./...", cwd=REPO)[0] == 0
+                    sh("git checkout -- . && git clean -fdq", cwd=REPO)
+                    if builds:
+                        patch = cand; break
             if patch is None:
                 rows.append((key, "PATCH DOES NOT APPLY", {})); continue
             rebased = open(patch).read() != open(f"{d}/patch.diff").read()
@@ -81,10 +87,14 @@ def main():
             try:
                 if "-race" in json.load(open(f"{d}/meta.json")).get("demo", ""): race = True
             except Exception: pass
-            without = demo(pkgdir, d, race)
+            # a demonstration whose hard-coded expectation a later fix commit changed, re-made
+            demo_src = f"/tmp/rebased-demo/{os.path.basename(out_dir)}/demo_test.go"
+            if not os.path.exists(demo_src):
+                demo_src = f"{out_dir}/demo_test.go" if os.path.exists(f"{out_dir}/demo_test.as-delivered.go") else f"{d}/demo_test.go"
+            without = demo(pkgdir, d, race, demo_src)
             sh(f"git apply {patch}", cwd=REPO)
             suite = sh(f"/verif/tools/repotest.sh {REPO}")[0] == 0
-            withp = demo(pkgdir, d, race)
+            withp = demo(pkgdir, d, race, demo_src)
             caught = {}
             for chk in [prop] + EXTRA.get(key, []):
                 rc, out = sh(f"/verif/check {chk} quick", cwd="/verif")
@@ -97,13 +107,18 @@ def main():
                 os.makedirs(out_dir, exist_ok=True)
                 if patch != f"{out_dir}/patch.diff": shutil.copy(patch, f"{out_dir}/patch.diff")
                 if rebased: shutil.copy(f"{d}/patch.diff", f"{out_dir}/patch.as-delivered.diff")
-                shutil.copy(f"{d}/demo_test.go", f"{out_dir}/demo_test.go")
+                if demo_src == f"{d}/demo_test.go":
+                    shutil.copy(f"{d}/demo_test.go", f"{out_dir}/demo_test.go")
+                elif demo_src != f"{out_dir}/demo_test.go":
+                    shutil.copy(f"{d}/demo_test.go", f"{out_dir}/demo_test.as-delivered.go")
+                    shutil.copy(demo_src, f"{out_dir}/demo_test.go")
                 try: meta = json.load(open(f"{d}/meta.json"))
                 except Exception: meta = {"property": prop}
                 meta["demo_package_dir"] = pkgdir
                 meta["demo_needs_race_flag"] = race
                 meta["confirmed"] = {"repo_head": head, "suite_passes_with_patch": suite, "demo_passes_without_patch": without == 0, "demo_fails_with_patch": withp != 0,
                                      "how": "tools/seeded_all.py: git apply, tools/repotest.sh, go test of the demonstration with and without the patch, ./check <ID> quick, git checkout"}
+                if demo_src != f"{d}/demo_test.go": meta["demo_rebased"] = "the delivered demonstration hard-codes an entry list that a later fix commit legitimately changed; demo_test.go has that expectation updated, demo_test.as-delivered.go is the original"
                 if rebased: meta["rebased"] = "the delivered patch no longer applied (or compiled) after a later fix commit to the same function; patch.diff is the same edit re-made on the fixed code, patch.as-delivered.diff is the original"
                 meta["checks"] = caught
                 json.dump(meta, open(f"{out_dir}/meta.json", "w"), indent=1, ensure_ascii=False)
